@@ -67,6 +67,13 @@ class AWorld(World):
     def call(self, it, o, method, args, kwargs):
         if o.kind == "loop":
             if method == "is_running":
+                if getattr(self, "timed_out", 0) and self.thread == "caller" and self.running and not getattr(self, "stop_decided", False):
+                    # a thread that has just waited in vain for the loop asks again: the loop may have been stopped meanwhile (loop.stop(),
+                    # run_until_complete finishing) - to be run again later
+                    self.stop_decided = True
+                    if it.ctx.choose(2, "the loop was stopped while dispose() was waiting for it") == 1:
+                        self.running = False
+                        self.log.append(("loop-stopped-meanwhile",))
                 return self.running
             if method in ("call_soon", "call_soon_threadsafe", "call_later"):
                 fn = args[-1] if method != "call_later" else args[1]
@@ -90,6 +97,11 @@ class AWorld(World):
                 return None
             if method == "result":
                 self.log.append(("future.result", o, self.thread, o.attrs.get("done", False)))
+                timed = bool(args) or "timeout" in kwargs
+                if timed and not o.attrs.get("done") and getattr(self, "timed_out", 0) < 2 and it.ctx.choose(2, "the timed wait for the future ran out") == 1:
+                    # Future.result(timeout): raises TimeoutError when the result has not arrived in time (the loop has not got round to it)
+                    self.timed_out = getattr(self, "timed_out", 0) + 1
+                    raise PyExc(it.make_exc("TimeoutError", "timed out waiting for the loop"))
                 if not o.attrs.get("done"):
                     # the caller blocks here until the loop has run what was handed to it
                     self.h.run_loop_queue(it)
@@ -152,6 +164,8 @@ class AioHarness:
         it.externals["asyncio.get_running_loop"] = Native("get_running_loop", get_running_loop)
         it.externals["asyncio.get_event_loop"] = Native("get_event_loop", get_event_loop)
         it.externals["concurrent.futures.Future"] = Native("Future", lambda it_, a, k: Opaque("future", "future"))
+        if "builtins.TimeoutError" in it.externals:
+            it.externals["concurrent.futures.TimeoutError"] = it.externals["builtins.TimeoutError"]  # (an alias since Python 3.11)
         mod = "reactivex.scheduler.eventloop.asynciothreadsafescheduler" if threadsafe else "reactivex.scheduler.eventloop.asyncioscheduler"
         cls = it.module_get(mod, "AsyncIOThreadSafeScheduler" if threadsafe else "AsyncIOScheduler")
         o = self.obj = Obj(cls)
@@ -216,6 +230,7 @@ class AioHarness:
         self.rec(ctx, uid + "/returns-a-disposable", isinstance(res, Obj))
         if not isinstance(res, Obj):
             return
+        running_at_dispose = w.running
         it.call(it.get_attr(res, "dispose"), [], {})
         evs = w.log[n0:]
         cancels = [e for e in evs if e[0] == "cancel"]
@@ -226,7 +241,7 @@ class AioHarness:
         self.rec(ctx, uid + "/dispose/no-deadlock", not [e for e in evs if e[0] == "deadlock"],
                  detail="dispose() waits for a future that nothing on the loop will resolve")
         marshalled = [e for e in evs if e[0] == "call_soon_threadsafe"]
-        if w.running and caller != "loop-thread":
+        if running_at_dispose and caller != "loop-thread":
             self.rec(ctx, uid + "/dispose/from-another-thread-the-cancellation-is-handed-to-the-loop", len(marshalled) == 1 and any(e[0] == "future.result" for e in evs))
             sr = [i for i, e in enumerate(evs) if e[0] == "future.set_result"]
             cs = [i for i, e in enumerate(evs) if e[0] == "cancel"]
